@@ -114,7 +114,7 @@ fn judge<S: ShortGroupSignatureScheme>(em: &mut Emitter, suite: &str, dev: &str,
     // verdict of the real verifier is the verdict of the disclosed-claims check
     // (not for the variant that makes report and proof map agree on a value that was never signed:
     // there the check passes and the proof of knowledge is what rejects)
-    if dev != "substitute-value-inner-false" {
+    if !dev.ends_with("-inner-false") {
         if let Some(line) = model_line(scn, p) {
             em.op(line, if v.is_ok() { "true" } else { "false" });
         }
@@ -186,15 +186,32 @@ fn run_suite<S: ShortGroupSignatureScheme + 'static>(em: &mut Emitter, base: &mu
             less.remove(&l);
             let schema_less = with_disclosed(&scn.schema, &sid, &less);
             // substitute value / type: claim hidden inside the proof, false value reported
-            for (dev, other_type) in [("substitute-value", false), ("substitute-type", true)] {
+            // "substitute-zero": the one value of the claim's type whose encoding is the zero scalar (revealed zero
+            // messages contribute the identity to the verifier's equations)
+            let zero_claim: Option<ClaimData> = match &claims[li] {
+                ClaimData::Number(_) => Some(NumberClaim::from(isize::MIN).into()),
+                ClaimData::Scalar(_) => Some(ScalarClaim::from(Scalar::ZERO).into()),
+                _ => None,
+            };
+            for (dev, other_type) in [("substitute-value", false), ("substitute-type", true), ("substitute-zero", false)] {
                 let mut rep = honest_map(&less);
-                rep.insert(l.clone(), false_claim(&claims[li], other_type));
+                if dev == "substitute-zero" {
+                    match &zero_claim {
+                        Some(z) if z.to_scalar() != claims[li].to_scalar() => {
+                            rep.insert(l.clone(), z.clone());
+                        }
+                        _ => continue,
+                    }
+                } else {
+                    rep.insert(l.clone(), false_claim(&claims[li], other_type));
+                }
                 let mut reported = Reported::new();
                 reported.insert(sid.clone(), rep.clone());
                 if let Out::Ok(p) = steered_create(&scn.credentials, &schema_less, &scn.schema, &scn.nonce, Some(reported)) {
                     judge(em, suite, dev, &scn, &p, &l);
                     // the same with the proof's inner map padded with the false / the true scalar
-                    for (dev2, sc) in [("substitute-value-inner-false", rep[&l].to_scalar()), ("substitute-value-inner-true", claims[li].to_scalar())] {
+                    let inner_false = if dev == "substitute-zero" { "substitute-zero-inner-false" } else { "substitute-value-inner-false" };
+                    for (dev2, sc) in [(inner_false, rep[&l].to_scalar()), ("substitute-value-inner-true", claims[li].to_scalar())] {
                         let mut q = p.clone();
                         if let Some(PresentationProofs::Signature(sp)) = q.proofs.get_mut(&sid) {
                             sp.disclosed_messages.insert(li, sc);
